@@ -633,6 +633,12 @@ example : matchPathRequireCall [.normal ['p', 'k', 'g'], .parent, .normal ['m']]
 
 /-! ## convert_require keeps the target -/
 
+instance instDecEqExcept {ε α : Type} [DecidableEq ε] [DecidableEq α] : DecidableEq (Except ε α)
+  | .ok a, .ok b => if h : a = b then isTrue (by rw [h]) else isFalse (by intro e; cases e; exact h rfl)
+  | .error a, .error b => if h : a = b then isTrue (by rw [h]) else isFalse (by intro e; cases e; exact h rfl)
+  | .ok _, .error _ => isFalse (by intro e; cases e)
+  | .error _, .ok _ => isFalse (by intro e; cases e)
+
 /-- Full statement: whenever a call resolves under the current mode and is rewritten, the new
 argument resolves under the target mode to a path leading to the same place. -/
 def convert_keeps_target_full : Prop :=
@@ -643,26 +649,57 @@ def convert_keeps_target_full : Prop :=
     ∃ found', target.findCall proj isFile (components arg) source = .ok found' ∧
       ∀ cwd, resolve cwd found' = resolve cwd found
 
-/-- False (F28): `pkg/m` with `pkg → ./lib`, required from `src/main.lua`, is found as
-`./lib/m.lua`; `generate_require` takes the leading `.` for "relative to the requiring file"
-and writes `./lib/m`, which the luau mode looks up below `src/`. -/
+/-- False (F29): `./m.lua`, required from `src/main.lua` while `src/m.luau` exists as well, is
+found as `src/m.lua`; `generate_require` drops the extension and writes `./m`, whose first
+existing candidate under the target mode is `src/m.luau`. -/
 theorem convert_keeps_target_full_false : ¬ convert_keeps_target_full := by
   intro h
-  let cur : Mode := .path ⟨['i', 'n', 'i', 't'], [(['p', 'k', 'g'], [.cur, .normal ['l', 'i', 'b']])], none⟩
+  let cur : Mode := .path ⟨['i', 'n', 'i', 't'], [], none⟩
   let tgt : Mode := .luau ⟨[], none⟩
-  let fs : List Path := [[.normal ['l', 'i', 'b'], .normal ['m', '.', 'l', 'u', 'a']]]
-  let req : Path := [.normal ['p', 'k', 'g'], .normal ['m']]
+  let fs : List Path := [[.normal ['s', 'r', 'c'], .normal ['m', '.', 'l', 'u', 'a']],
+    [.normal ['s', 'r', 'c'], .normal ['m', '.', 'l', 'u', 'a', 'u']]]
+  let req : Path := [.cur, .normal ['m', '.', 'l', 'u', 'a']]
   let src : Path := [.normal ['s', 'r', 'c'], .normal ['m', 'a', 'i', 'n', '.', 'l', 'u', 'a']]
-  obtain ⟨f', hf, _⟩ := h cur tgt [.cur] (memIsFile fs) req src
-    [.cur, .normal ['l', 'i', 'b'], .normal ['m', '.', 'l', 'u', 'a']] ['.', '/', 'l', 'i', 'b', '/', 'm']
-    (by rfl) (by rfl)
-  have : tgt.findCall [.cur] (memIsFile fs) (components ['.', '/', 'l', 'i', 'b', '/', 'm']) src =
-      .error (.notFound [.normal ['s', 'r', 'c'], .normal ['l', 'i', 'b'], .normal ['m']]) := by rfl
+  obtain ⟨f', hf, hden⟩ := h cur tgt [.cur] (memIsFile fs) req src
+    [.normal ['s', 'r', 'c'], .normal ['m', '.', 'l', 'u', 'a']] ['.', '/', 'm']
+    (by decide +kernel) (by decide +kernel)
+  have : tgt.findCall [.cur] (memIsFile fs) (components ['.', '/', 'm']) src =
+      .ok [.normal ['s', 'r', 'c'], .normal ['m', '.', 'l', 'u', 'a', 'u']] := by decide +kernel
   rw [this] at hf
   cases hf
+  have := hden []
+  revert this; decide
+
+/-- The written require depends on the found file only through its normal form: however the
+locator spelled the path (`./lib/m.lua`, `lib/m.lua`, `src/../lib/m.lua`), the same argument is
+generated (full statement; false before the fix of F28, when a leading `.`/`..` of the found
+path was taken for "relative to the requiring file"). -/
+theorem generate_path_ignores_spelling (m : PathMode) (proj found current : Path) :
+    generateRequirePath m proj (normalize false found) current = generateRequirePath m proj found current := by
+  simp [generateRequirePath, normalize_idem]
+
+theorem generate_luau_ignores_spelling (m : LuauMode) (proj found current : Path) :
+    generateRequireLuau m proj (normalize false found) current = generateRequireLuau m proj found current := by
+  simp [generateRequireLuau, normalize_idem]
+
+/-- regression (former F28 witness): `pkg/m` with `pkg → ./lib`, required from `src/main.lua`
+and found as `./lib/m.lua`, is rewritten to `../lib/m`, which the luau mode resolves to the
+same file -/
+example :
+    convertRequire (.path ⟨['i', 'n', 'i', 't'], [(['p', 'k', 'g'], [.cur, .normal ['l', 'i', 'b']])], none⟩)
+      (.luau ⟨[], none⟩) [.cur]
+      (memIsFile [[.normal ['l', 'i', 'b'], .normal ['m', '.', 'l', 'u', 'a']]])
+      [.normal ['p', 'k', 'g'], .normal ['m']]
+      [.normal ['s', 'r', 'c'], .normal ['m', 'a', 'i', 'n', '.', 'l', 'u', 'a']] =
+    some ['.', '.', '/', 'l', 'i', 'b', '/', 'm'] ∧
+    ((Mode.luau ⟨[], none⟩).findCall [.cur]
+      (memIsFile [[.normal ['l', 'i', 'b'], .normal ['m', '.', 'l', 'u', 'a']]])
+      (components ['.', '.', '/', 'l', 'i', 'b', '/', 'm'])
+      [.normal ['s', 'r', 'c'], .normal ['m', 'a', 'i', 'n', '.', 'l', 'u', 'a']]).toOption =
+    some [.normal ['l', 'i', 'b'], .normal ['m', '.', 'l', 'u', 'a']] := by decide +kernel
 
 /-- Partial (the core of the non-defective region): when the found file and the requiring
-file are plain paths (names only — in particular `HConv` holds) and the requiring file lies
+file are plain paths (names only) and the requiring file lies
 in a named directory `q`, `get_relative_path` succeeds and the relative path it returns
 leads, from `q`, exactly to the found file. Together with `path_head_relative` /
 `luau_head_relative` (the head of a relative require is walked from `q`) and
